@@ -162,6 +162,9 @@ def run_search(shard, ctx):
         for f in needles(rng, t):
             for s in ([1] + rng.sample(range(0, len(t) + 2), min(3, len(t) + 2))):
                 vals.append([(0, 'A1', t), (0, 'B1', f), (0, 'E1', s)])
+        # a blank cell as the text to find (and, once, as the text to search in)
+        vals.append([(0, 'A1', t), (0, 'B1', None), (0, 'E1', rng.randrange(1, len(t) + 1))])
+    vals.append([(0, 'A1', None), (0, 'B1', 'a'), (0, 'E1', 1)])
     judge_book(ctx, ID, spec, [(0, a) for a in SEARCHERS], vals, exact=True, err_exact=True, classify=classify, nontrivial=nontrivial,
                name='search', monitor='search-reference')
     r.sample({'search': [[v[0][2], v[1][2], v[2][2]] for v in vals[:8]]})
